@@ -6,7 +6,6 @@ import (
 	"net"
 	"net/http"
 	"os"
-	"path/filepath"
 	"sync"
 	"sync/atomic"
 
@@ -30,6 +29,8 @@ var (
 	httpCurrent atomic.Value // handlerBox
 )
 
+var shadowSeq int64
+
 type handlerBox struct{ h http.Handler }
 
 type noHandler struct{}
@@ -42,6 +43,15 @@ func testfsAddr() (string, error) {
 	httpOnce.Do(func() {
 		httpCurrent.Store(handlerBox{noHandler{}})
 		l, err := net.Listen("tcp", "127.0.0.1:0")
+		if err != nil {
+			// A busy machine can have every ephemeral port tied up in TIME_WAIT, which
+			// defeats port 0. Fixed ports below the ephemeral range on another loopback
+			// address still bind (listeners set SO_REUSEADDR).
+			base := os.Getpid() * 7
+			for i := 0; i < 400 && err != nil; i++ {
+				l, err = net.Listen("tcp", fmt.Sprintf("127.37.0.1:%d", 12000+(base+i*13)%18000))
+			}
+		}
 		if err != nil {
 			httpErr = err
 			return
@@ -115,17 +125,14 @@ func runS3(c Case) pbt.Verdict {
 // over a sqlite file and a testfs server, so that independent clients can look
 // at each side afterwards.
 func runShadow(c Case) pbt.Verdict {
-	dir, err := os.MkdirTemp("", "c37-shadow")
-	if err != nil {
-		return infra("mkdtemp: %v", err)
-	}
-	defer os.RemoveAll(dir)
 	addr, stop, err := startTestfs()
 	if err != nil {
 		return infra("listen: %v", err)
 	}
 	defer stop()
-	sqlCfg := sqlbackend.Config{Dialect: "sqlite3", ConnectionString: filepath.Join(dir, "tags.db")}
+	// A named shared-cache in-memory database: the shadow client's connection and the
+	// audit's connection see the same tables; it vanishes when the last one closes.
+	sqlCfg := sqlbackend.Config{Dialect: "sqlite3", ConnectionString: fmt.Sprintf("file:c37-shadow-%d-%d?mode=memory&cache=shared", os.Getpid(), atomic.AddInt64(&shadowSeq, 1))}
 	fsCfg := testfs.Config{Addr: addr, Root: c.Root, NamePath: c.Scheme}
 	cfg := shadowbackend.Config{
 		ActiveClientConfig: map[string]interface{}{"sql": sqlCfg},
